@@ -81,7 +81,7 @@ def execute(sc):
         if blocking_manifest(w.root):
             return mk_result([seam], [], False, outcome='skipped: FIFO Manifest', dontcare={'fifo-manifest': 1})
         model = Model(w.root, 'Manifest')
-        snap0 = w.snapshot()
+        snap0 = w.snapshot(with_mtime=False)
         top_path = os.path.join(w.root, 'Manifest')
         for i, op in enumerate(sc.get('ops', [])):
             sub = op.get('sub', '')
@@ -185,7 +185,7 @@ def execute(sc):
                             what, cli['rc'], nerr, len(must), sorted(must)[:6]), sig='rc=%r' % cli['rc']))
                     counters['cli'] = counters.get('cli', 0) + 1
         violations += internal_violations(results)
-        violations += write_violations(seam, snap0, w.snapshot(), 'verify --keep-going')
+        violations += write_violations(seam, snap0, w.snapshot(with_mtime=False), 'verify --keep-going')
     counters['mutations_applied'] = applied
     _res_faults = applied_kinds
     counters['runs_with_2+_offending_or_structural'] = multi
